@@ -257,6 +257,17 @@ func (r *committedReader) Read(ctx context.Context, p []byte) (n int, err error)
 			return 0, err
 		}
 		r.pos = entry.Position
+	} else if r.hwSeg != nil && findSegmentByBaseOffset(segments, r.hwSeg.BaseOffset) != r.hwSeg {
+		// The segment holding the HW has been replaced since its position was
+		// looked up (truncation of the uncommitted tail or compaction), so it
+		// would no longer be recognized as the segment to stop reading in. Look
+		// the HW position up again.
+		hwIdx, hwPos, err := getHWPos(segments, r.hw)
+		if err != nil {
+			return 0, err
+		}
+		r.hwSeg = segments[hwIdx]
+		r.hwPos = hwPos
 	}
 
 	return r.readLoop(ctx, p, segments)
